@@ -167,6 +167,9 @@ def render (o : Out) : String :=
 def runLine (line : String) : String :=
   match Proto.words line with
   | [e, p, c] =>
+    match e, parsePayload p, parseChain c with
+    | "TR", some payload, some chain => render (hostRunTry chain payload)      -- Runtime.Try as the host's entry
+    | _, _, _ =>
     match parseEntry e, parsePayload p, parseChain c with
     | some entry, some payload, some chain => render (hostRun entry chain payload)
     | _, _, _ => "BADCASE"
